@@ -35,7 +35,7 @@ Has(e, f) == f \in DOMAIN e
 
 StartPos == Decode([r |-> <<261944453, 67977560, 0, 0, 0, 0, 475842920, 669809813>>, stm |-> 0, cr |-> 15, ep |-> 0])
 NoGo == [active |-> FALSE, toks |-> <<>>]
-Fresh == [pos |-> StartPos, hist |-> <<StartPos>>, go |-> NoGo, ready |-> 0, eof |-> FALSE, quit |-> FALSE, tend |-> 0, dead |-> FALSE, cmd |-> "startpos", skip |-> FALSE, base |-> <<StartPos>>, gos |-> 0]
+Fresh == [pos |-> StartPos, hist |-> <<StartPos>>, go |-> NoGo, prevlegal |-> {}, ready |-> 0, eof |-> FALSE, quit |-> FALSE, tend |-> 0, dead |-> FALSE, cmd |-> "startpos", skip |-> FALSE, base |-> <<StartPos>>, gos |-> 0]
 
 RECURSIVE Play(_, _, _)
 Play(p, texts, i) ==
@@ -70,7 +70,7 @@ InFails(e) ==
   ELSE {}
 
 \* the answered go stays the attribution context for late info lines until the next command is written
-CloseGo(st) == IF st.go.active /\ st.go.answers >= 1 THEN [st EXCEPT !.go = NoGo] ELSE st
+CloseGo(st) == IF st.go.active /\ st.go.answers >= 1 THEN [st EXCEPT !.go = NoGo, !.prevlegal = st.go.legal] ELSE st
 
 InStep(e) ==
   LET sc == CloseGo(s) IN
@@ -149,7 +149,14 @@ BestFails(e) ==
 \* itself: it reports more elapsed time than has passed since the current go was sent (a genuine line's `time` is
 \* measured from a start that is not earlier than the moment the driver stamped the go).  Foreign lines are not judged
 \* and not recorded for the current go.
-Foreign(e) == s.go.active /\ e.info.ok /\ e.info.time > (e.t - s.go.t) + 1
+\* (On a heavily loaded machine a search thread can be pre-empted between handing over its board and printing the line
+\* it has already formatted: the command loop answers from the board, the next go is written, and only then the line of the
+\* EARLIER search surfaces, carrying a small `time`.  Such a line is recognised by its content: its first pv move is no
+\* move of the position searched now, but it is a move of the position the previous go searched.)
+ForeignByTime(e) == e.info.time > (e.t - s.go.t) + 1
+ForeignByContent(e) == /\ e.info.pv[1] \notin PvTexts(s.go.legal)
+                       /\ e.info.pv[1] \in PvTexts(s.prevlegal)
+Foreign(e) == s.go.active /\ e.info.ok /\ (ForeignByTime(e) \/ ForeignByContent(e))
 
 \* one late line per previous search is the benign race; a previous search that KEEPS printing into the current one is not
 MaxForeign == 2
